@@ -6,6 +6,7 @@ import (
 	"fmt"
 	"math/big"
 	"runtime"
+	"strconv"
 	"strings"
 
 	"github.com/mmcloughlin/addchain"
@@ -49,7 +50,7 @@ func (c call) String() string {
 	case 'D':
 		return fmt.Sprintf("D,%d", c.i)
 	}
-	return fmt.Sprintf("S,%d,%d", c.i, c.j)
+	return fmt.Sprintf("S,%d,%d", c.i, uint64(c.j)) // the amount is a Go uint: j holds its two's-complement image
 }
 
 func encCalls(cs []call) string {
@@ -72,7 +73,15 @@ func decCalls(s string) []call {
 		a := strings.Split(f, ",")
 		c := call{kind: a[0][0], i: lib.Atoi(a[1])}
 		if len(a) > 2 {
-			c.j = lib.Atoi(a[2])
+			if c.kind == 'S' {
+				u, err := strconv.ParseUint(a[2], 10, 64)
+				if err != nil {
+					panic("harness: bad shift amount " + a[2])
+				}
+				c.j = int(u)
+			} else {
+				c.j = lib.Atoi(a[2])
+			}
 		}
 		cs = append(cs, c)
 	}
@@ -96,6 +105,10 @@ func apply(p *addchain.Program, c call) (int, error) {
 		return p.Add(c.i, c.j)
 	case 'D':
 		return p.Double(c.i)
+	}
+	if uint64(c.j) > 1<<16 && 0 <= c.i && c.i <= len(*p) {
+		// would append billions of doublings; the generators never emit this
+		panic("harness: refusing a huge shift with an existing operand")
 	}
 	return p.Shift(c.i, uint(c.j))
 }
@@ -138,7 +151,7 @@ func lenAfter(n int, c call) int {
 			return n + 1
 		}
 	case 'S':
-		if c.j > 0 && in(c.i) {
+		if uint64(c.j) > 0 && in(c.i) {
 			return n + c.j
 		}
 	}
@@ -180,7 +193,7 @@ func gen(tier string, r *lib.Rand, emit func(string)) {
 			for _, c := range next {
 				m := lenAfter(n, c)
 				ncs := append(append([]call{}, cs...), c)
-				if (len(cs) >= cf.full && m == n) || (c.kind == 'S' && c.j > cf.smax && len(cs) < cf.ncalls-1) {
+				if (len(cs) >= cf.full && m == n) || (c.kind == 'S' && uint64(c.j) > uint64(cf.smax) && len(cs) < cf.ncalls-1) {
 					emit("build " + encCalls(ncs))
 					continue
 				}
@@ -188,6 +201,39 @@ func gen(tier string, r *lib.Rand, emit func(string)) {
 			}
 		}
 		rec(nil, 0)
+	}
+
+	// (a') machine-word boundaries.  Shift amounts 2^31-1 .. 2^64-1 only ever with an operand that does
+	// not exist (with an existing one the real code would append that many doublings), after prefixes
+	// of different lengths; operands of Add / Double / Shift at the int boundaries; amounts up to a few
+	// thousand with existing operands.
+	bigS := []uint64{1<<31 - 1, 1 << 31, 1<<32 - 1, 1 << 32, 1<<63 - 1, 1 << 63, 1<<63 + 1, 1<<64 - 1, 1<<64 - 2, 1 << 62, 1 << 16, 65537}
+	farI := []int{-1, -2, -1 << 31, -1<<31 - 1, -1 << 63, -1<<63 + 1, 1<<31 - 1, 1 << 31, 1 << 32, 1<<63 - 1, 1<<63 - 2}
+	prefixes := [][]call{nil, {{'D', 0, 0}}, {{'D', 0, 0}, {'A', 1, 0}}, {{'S', 0, 3}, {'A', 3, 1}}}
+	for _, pre := range prefixes {
+		n := 0
+		for _, c := range pre {
+			n = lenAfter(n, c)
+		}
+		bad := append([]int{n + 1, n + 2, n + 1000}, farI...)
+		for _, i := range bad {
+			for _, sv := range bigS {
+				cs := append(append([]call{}, pre...), call{'S', i, int(sv)})
+				emit("build " + encCalls(cs))
+				// and the program is still usable afterwards
+				emit("build " + encCalls(append(cs, call{'D', n, 0}, call{'S', n + 1, 2})))
+			}
+			for _, sv := range []uint64{0, 1, 2, 1000} {
+				emit("build " + encCalls(append(append([]call{}, pre...), call{'S', i, int(sv)})))
+			}
+			emit("build " + encCalls(append(append([]call{}, pre...), call{'D', i, 0})))
+			emit("build " + encCalls(append(append([]call{}, pre...), call{'A', i, 0}, call{'A', 0, i}, call{'A', i, i})))
+		}
+		for _, sv := range []int{64, 255, 1000, 4097} {
+			for i := 0; i <= n; i++ {
+				emit("build " + encCalls(append(append([]call{}, pre...), call{'S', i, sv}, call{'A', n + sv, i})))
+			}
+		}
 	}
 
 	// (b) random long call sequences, about 90% in range
@@ -481,7 +527,9 @@ func neighbours(c string, r *lib.Rand, emit func(string)) {
 				cs = append(cs, call{"ADS"[r.Intn(3)], r.Range(-1, 4), r.Range(0, 3)})
 			} else {
 				k := r.Intn(len(cs))
-				if r.Bool() {
+				if cs[k].kind == 'S' && uint64(cs[k].j) > 1<<12 {
+					cs[k].j = r.Range(0, 3) // a huge amount is only ever paired with a missing operand
+				} else if r.Bool() {
 					cs[k].i += r.Range(-1, 1)
 				} else {
 					cs[k].j += r.Range(-1, 1)
@@ -965,7 +1013,7 @@ func oracleBuild(cs []call) string {
 			}
 			accepted = in(c.i)
 			src := c.i
-			for s := 0; s < c.j; s++ {
+			for s := 0; accepted && s < c.j; s++ {
 				want = append(want, addchain.Op{I: src, J: src})
 				src = l + s + 1
 			}
